@@ -311,12 +311,16 @@ CHECKS["C08"]["text"] = (
     "record, in first-occurrence order; attributes: a merged record holds exactly the images of its group's values (in every "
     "reachable world); idempotence: the records unified() returns are a fixed point, and in the document it returns no "
     "container has anything left to merge; raise only on conflict: in every reachable container, if unifying raises, the "
-    "exception is ProvException and two records of one group hold unequal values under one formal attribute. The converse "
-    "(every conflict raises) is not proved (for memberships that disagree on prov:collection it is repaired in /repo; on the member only it is still false: known finding C08-F1) and is decided per run by the correspondence "
+    "exception is ProvException and two records of one group hold unequal values under one formal attribute; and conflict "
+    "always raises (C08_conflict_always_raises): in every reachable container, if any two records of one group - neither "
+    "need be the first, the first need not hold the attribute - hold unequal values under a formal attribute other than "
+    "prov:entity, unified() does not return but raises ProvException (or the container is outside the model's domain). "
+    "prov:entity (collection members) is excluded by the statement: memberships disagreeing on the member only are merged "
+    "(known finding C08-F1). All of it is tied to the code per run by the correspondence "
     "(model vs implementation on identifier-reuse programs) and an independent merge-specification oracle on the "
     "implementation, which also checks that the result shares no bundle object with the source and that writing to the "
     "result leaves the source alone.")
-CHECKS["C08"]["technique"] = ("Coq proofs (frame, grouping, attribute conservation, idempotence, raise-only-on-conflict) + "
+CHECKS["C08"]["technique"] = ("Coq proofs (frame, grouping, attribute conservation, idempotence, raises exactly on conflict: both halves) + "
                               "differential correspondence and independent merge oracle")
 CHECKS["C01"]["text"] = (
     "Proof (Coq): value level — every stored value kind (str, bool, int of any size, float under the float-oracle law, URI, "
